@@ -391,3 +391,12 @@ def pinned_f7(ctx):
 
 
 PINNED = [pinned_f7]
+
+
+def extra_stage(tier, seed, tmp):
+    """thorough tier: the repository's own test-suite as a workload under this property's monitors (every Graph.optimize / Graph.from_g2o call)."""
+    if tier != "thorough":
+        return None
+    from ..runner import suite_under_monitors
+
+    return suite_under_monitors("C15", seed, tmp)
